@@ -183,7 +183,7 @@ proof fn lemma_inskip_entry(f: Feedback, a: Seq<Tensor>, k: int)
             self.connect@.contains_key(i), __src8@ == self.connect@[i]@,
 //@end
 
-//@unit feedback.forward prop=C11
+//@unit feedback.forward prop=C11 search=feedback.forward
 impl Feedback {
 fn forward(&self, input: &tensor::Tensor) -> (r: (tensor::Tensor, tensor::Tensor, tensor::Tensor, tensor::Tensor, tensor::Tensor))
     requires
